@@ -516,6 +516,14 @@ def gen_c07(rng, n):
 # ----------------------------------------------------------------------------- exact helpers for the distribution
 def spec_pieces(spec, lo=None, hi=None):
     """finite defined pieces (value, length) of spec restricted to [lo, hi] (exact)"""
+    # canonical rows first: a redundant row (same value as its left neighbour) is not a step point, so it does not
+    # delimit a finite piece (rand_spec may give up avoiding equal neighbours)
+    rows_, prev_ = [], spec.init
+    for p_, v_ in spec.rows:
+        if v_ != prev_:
+            rows_.append((p_, v_))
+            prev_ = v_
+    spec = Spec(spec.closed, spec.init, rows_)
     pts = [p for p, _ in spec.rows]
     vals = [v for _, v in spec.rows]
     cuts = sorted(set(pts + [x for x in (lo, hi) if x is not None]))
